@@ -515,7 +515,11 @@ class C17(Prop):
                   'the windows inside the array; a request with offset_d + count_d <= window_d over the integers is the array read at '
                   'origin + offset (view_read_is_array_read_at_origin_plus_offset), a write changes exactly the addressed cells and no '
                   'cell outside the window (view_write_frame), every other request - for ANY u64 offset and count, including sums that '
-                  'wrap - is refused with OutOfBounds and transfers nothing (view_oob_rejected).  For the pinned code each statement '
+                  'wrap - is refused with OutOfBounds and transfers nothing (view_oob_rejected).  Value transfers (the templates '
+                  'DataSet::getData(value, offset) / setData(value, offset), buffer size explicit): with the templates repaired a scalar '
+                  'moves exactly one element - the window origin for an empty offset - or the call throws, a vector of n moves n; never an '
+                  'access outside the value (C17_view_get_value_spec, C17_view_set_value_spec, C17_scalar_read_one_element; '
+                  'C17_scalar_template_refuted for the unrepaired templates).  For the pinned code each statement '
                   'fails on a computed witness (..._refuted); the last theorem current_is_repaired ties the model driver to the repaired behaviour.  The '
                   'model is tied to the code by the correspondence run (model == implementation on every line, also for every single '
                   'patch with the matching switch); the extracted specification judges the implementation\'s answers.')
@@ -543,6 +547,8 @@ class C17(Prop):
                        'windows inside / at the edge / crossing / beyond / wrapping / of wrong rank, then 4-9 requests inside / touching / '
                        'crossing in one dimension / offset near 2^64 / count near 2^64 (last line: HDF5 overruns the buffer on the pinned '
                        'tree) / empty count or offset / zero counts / rank mismatch, reads and writes interleaved with whole-array dumps.  '
+                       'Value streams: getData / setData(value, offset) with scalar and short-vector values x offsets empty / zeros / in window / '
+                       'out of window / wrong rank x windows of 1 and more elements x ranks 1..3, through the view and on the array (control).  '
                        'Non-trivial = the model returned data for at least one line; distinct = distinct case text')
     assumptions = ['a dimension\'s coordinates are the doubles its descriptor yields (sampled: fl(fl(i*interval)+offset), range: the ticks, set / data frame: the index)',
                    'descriptors are well formed in the sense of the C07 theorems (dim_wf) and converted positions are finite, below 2^52 on set / data-frame dimensions (pos_ok)',
